@@ -30,8 +30,11 @@ func world(entry string, fam, nT, nV, conv, form, sv int64, mode ...int64) Shard
 	if m&64 != 0 {
 		extra += ", target built with default values under its own parameters' keys (Call arguments must win)"
 	}
+	if m&512 != 0 {
+		extra += ", the call goes through a function returned by Redefine(converters) that is given the values"
+	}
 	if m&128 != 0 {
-		extra += ", kind of error value symbolic (pointer error / the library's *ErrArgumentUnsatisfied / struct-valued error that is the zero value of its type)"
+		extra += ", kind of error value symbolic (pointer error / the library's *ErrArgumentUnsatisfied / struct-valued error that is the zero value of its type / one-element multierror)"
 	}
 	if fam >= 100 {
 		skel := []string{"skeleton 0: multi-input converter entered through one input, typed inputs with symbolic subtypes", "skeleton 1: diamond of two multi-input converters", "skeleton 2: two-output converter feeding two parameters, symbolic names/subtypes",
@@ -127,9 +130,11 @@ func registerResolver() {
 	register(&PropSpec{
 		ID: "C04", Pkg: "argmapper",
 		Quick: []Shard{
+			world("HarnessC04", 0, 1, 1, 11, 1, 0, 512), world("HarnessC04", 5, 1, 1, 1111, 1, 0, 640), world("HarnessC04", 1, 1, 1, 11, 1, 0, 512),
 			world("HarnessC04", 0, 1, 1, 11, 9, 0), world("HarnessC04", 1, 1, 1, 1111, 1, 0), world("HarnessC04", 0, 1, 1, 1121, 0, 0), world("HarnessC04", 0, 1, 1, 12, 9, 0), world("HarnessC04", 1, 1, 1, 12, 1, 0), world("HarnessC04", 101, 0, 0, 0, 1, 0), world("HarnessC04", 106, 0, 0, 0, 1, 0), world("HarnessC04", 104, 0, 0, 0, 0, 0), world("HarnessC04", 0, 1, 1, 1211, 1, 0, 2), world("HarnessC04", 0, 1, 1, 11, 1, 0, 128), world("HarnessC04", 5, 1, 1, 1111, 1, 0, 128),
 		},
 		Thorough: []Shard{
+			world("HarnessC04", 0, 1, 1, 11, 1, 0, 512), world("HarnessC04", 5, 1, 1, 1111, 1, 0, 640), world("HarnessC04", 1, 1, 1, 11, 1, 0, 512), world("HarnessC04", 0, 1, 1, 11, 9, 0, 514), world("HarnessC04", 101, 0, 0, 0, 1, 0, 512),
 			world("HarnessC04", 0, 1, 1, 11, 1, 0, 128), world("HarnessC04", 5, 1, 1, 1111, 1, 0, 128), world("HarnessC04", 0, 1, 1, 11, 9, 0, 130), world("HarnessC04", 101, 0, 0, 0, 1, 0, 128),
 			world("HarnessC04", 0, 1, 1, 11, 9, 0), world("HarnessC04", 1, 1, 1, 1111, 1, 0), world("HarnessC04", 0, 1, 1, 1121, 0, 0), world("HarnessC04", 0, 1, 1, 12, 9, 0), world("HarnessC04", 1, 1, 1, 12, 1, 0), world("HarnessC04", 101, 0, 0, 0, 1, 0), world("HarnessC04", 106, 0, 0, 0, 1, 0), world("HarnessC04", 104, 0, 0, 0, 0, 0), world("HarnessC04", 0, 1, 1, 1211, 1, 0, 2), world("HarnessC04", 0, 2, 1, 1111, 1, 1), world("HarnessC04", 0, 1, 1, 111111, 1, 0), world("HarnessC04", 3, 1, 1, 11, 0, 0), world("HarnessC04", 3, 1, 0, 1111, 0, 0), world("HarnessC04", 0, 1, 2, 2111, 2, 0), world("HarnessC04", 3, 1, 1, 12, 1, 0), world("HarnessC04", 5, 1, 1, 211111, 0, 0), world("HarnessC04", 100, 0, 0, 0, 9, 0), world("HarnessC04", 102, 0, 0, 0, 9, 0, 2), world("HarnessC04", 101, 0, 0, 0, 9, 0, 2),
 		},
